@@ -611,3 +611,13 @@ Proof.
     + now destruct (rcdata_cases tag Ec) as [(-> & -> & ->) | (-> & -> & ->)].
     + now destruct (b_escape_data tag Er Ec) as [-> ->].
 Qed.
+
+(** An element resets the escape flag: what it renders — on either path — does not depend on
+    the flag (or position) handed down by its parent, in particular not on whether an ancestor
+    is a raw-text element such as <noscript>.  (tachys: [HtmlElement::to_html_with_buf] ignores
+    [_escape] and passes [E::ESCAPE_CHILDREN] on; macro: [inert_element_to_tokens] recomputes
+    [escape] from the element's own name.) *)
+Lemma element_ignores_parent_escape : forall io top e1 e2 pos1 pos2 tag attrs ch,
+    r_node io top e1 pos1 (NElem tag attrs ch) = r_node io top e2 pos2 (NElem tag attrs ch)
+    /\ inert_node e1 (NElem tag attrs ch) = inert_node e2 (NElem tag attrs ch).
+Proof. intros. split; reflexivity. Qed.
